@@ -54,6 +54,32 @@ impl Env {
         for (r, p) in [(&d, "a.txt"), (&d, "sub/big.bin"), (&d, "sub/same.txt"), (&s, "sub/same.txt")] { if let Ok(f) = std::fs::File::options().write(true).open(r.join(p)) { let _ = f.set_modified(old); } }
         Some(())
     }
+    /// variant 2: a push with --delete whose delete list is longer than a pipe buffer (64 KiB). The list is written to the
+    /// remote `xargs` in several write calls; the 65536-byte boundary falls inside the name of one stale file, and a file
+    /// that is NOT in the plan (present and identical on both sides) carries exactly that truncated name.
+    fn populate_big_delete(&self, dst: &str) -> Option<()> {
+        let (s, d) = (self.dir.join("src"), self.dir.join(dst));
+        let _ = std::fs::remove_dir_all(&s); let _ = std::fs::remove_dir_all(&d);
+        std::fs::create_dir_all(s.join("s")).ok()?; std::fs::create_dir_all(d.join("s")).ok()?;
+        let old = std::time::UNIX_EPOCH + std::time::Duration::from_secs(1_500_000_000);
+        let both = |rel: &str, c: &[u8]| -> Option<()> { for r in [&s, &d] { std::fs::write(r.join(rel), c).ok()?; std::fs::File::options().write(true).open(r.join(rel)).ok()?.set_modified(old).ok()?; } Some(()) };
+        both("keep.txt", b"same on both sides")?;
+        let names: Vec<String> = (0..1500).map(|i| format!("s/{i:04}-{}", "x".repeat(50))).collect();
+        for n in &names { std::fs::write(d.join(n), b"stale").ok()?; }
+        // where does byte 65536 of the list `<dst>/<rel>\0...` fall?
+        let root = d.to_string_lossy().into_owned();
+        let mut pos = 0usize;
+        for n in &names {
+            let e = root.len() + 1 + n.len() + 1;
+            if pos + e > 65536 {
+                let o = 65536 - pos;                                   // bytes of this entry that fit
+                if o > root.len() + 1 + 4 && o < root.len() + 1 + n.len() { both(&n[..o - (root.len() + 1)], b"an innocent file: present and identical on both sides, not in any plan")?; }
+                break;
+            }
+            pos += e;
+        }
+        Some(())
+    }
     fn args(&self, dir: &str, dst: &str) -> Vec<String> {
         let (s, d) = (self.dir.join("src").to_string_lossy().into_owned(), self.dir.join(dst).to_string_lossy().into_owned());
         let mut v = vec!["sync".to_string(), "-r".into(), "-j".into(), "1".into()];
@@ -86,20 +112,22 @@ pub fn kill_point(dir: &str, k: usize) -> (Option<String>, bool) { kill_point_v(
 /// variant 0: default flags; variant 1: --delete (the destination-only file is in the plan: it may be gone, nothing else may)
 pub fn kill_point_v(dir: &str, k: usize, variant: usize) -> (Option<String>, bool) {
     let Some(env) = Env::new(&format!("{dir}{k}v{variant}")) else { return (None, false) };
-    if variant == 1 { env.flags.borrow_mut().push("--delete".into()); }
-    let dir_s = if variant == 1 { format!("{dir} --delete") } else { dir.to_string() };
-    if env.populate("ref").is_none() { return (None, false); }
+    if variant >= 1 { env.flags.borrow_mut().push("--delete".into()); }
+    let dir_s = if variant == 1 { format!("{dir} --delete") } else if variant == 2 { format!("{dir} --delete, 1500 stale files") } else { dir.to_string() };
+    let pop = |which: &str| if variant == 2 { env.populate_big_delete(which) } else { env.populate(which) };
+    if pop("ref").is_none() { return (None, false); }
     let src = tree(&env.dir.join("src"));
     let (rc, out) = env.run(dir, "ref");
     if rc != Some(0) { return (Some(format!("[{dir}] the uninterrupted reference run failed (exit {rc:?}): {}", out.chars().take(160).collect::<String>())), false); }
     let reference = tree(&env.dir.join("ref"));
-    if env.populate("dst").is_none() { return (None, false); }
+    if pop("dst").is_none() { return (None, false); }
     let before = tree(&env.dir.join("dst"));
     let Some(o) = env.run_killed(dir, "dst", k) else { return (None, false) };
     if !o.killed { return (None, false); }
     let at = o.last.replace(&env.dir.to_string_lossy().into_owned(), "");
     std::thread::sleep(std::time::Duration::from_millis(250));       // let the orphaned remote command finish
     let after = tree(&env.dir.join("dst"));
+    if std::env::var("COPIA_VERIF_DEBUG").is_ok() { eprintln!("debug: k={k} killed before `{at}`; files before {} after {}; missing although in source: {:?}", before.len(), after.len(), before.keys().filter(|p| !after.contains_key(*p) && src.contains_key(*p)).collect::<Vec<_>>()); }
     for (p, v) in &after {
         if p.ends_with(".copia-tmp") { continue; }
         let old_ok = before.get(p) == Some(v); let new_ok = src.get(p) == Some(v);
@@ -108,7 +136,7 @@ pub fn kill_point_v(dir: &str, k: usize, variant: usize) -> (Option<String>, boo
         }
         if !src.contains_key(p) && !old_ok { return (Some(format!("[{dir_s}] killed before call {k} `{at}`: `{p}`, which is outside the plan, changed (C09)")), true); }
     }
-    for p in before.keys() { if !after.contains_key(p) && !(variant == 1 && !src.contains_key(p)) { return (Some(format!("[{dir_s}] killed before call {k} `{at}`: `{p}` existed before the run and is gone (C09)")), true); } }
+    for p in before.keys() { if !after.contains_key(p) && !(variant >= 1 && !src.contains_key(p)) { return (Some(format!("[{dir_s}] killed before call {k} `{at}`: `{p}` existed before the run and is gone (C09)")), true); } }
     let (rc2, out2) = env.run(dir, "dst");
     if rc2 != Some(0) { return (Some(format!("[{dir}] killed before call {k} `{at}`, then the same command was run again: it does not complete (exit {rc2:?}): {} (C09)", out2.lines().filter(|l| l.contains("FAIL") || l.contains("rror")).take(2).collect::<Vec<_>>().join(" | "))), true); }
     let fin = tree(&env.dir.join("dst"));
@@ -271,8 +299,8 @@ pub fn run_noop(w: &str) -> i32 {
 pub fn count_calls(dir: &str) -> usize { count_calls_v(dir, 0) }
 pub fn count_calls_v(dir: &str, variant: usize) -> usize {
     let Some(env) = Env::new(&format!("{dir}count{variant}")) else { return 0 };
-    if variant == 1 { env.flags.borrow_mut().push("--delete".into()); }
-    if env.populate("dst").is_none() { return 0; }
+    if variant >= 1 { env.flags.borrow_mut().push("--delete".into()); }
+    if (if variant == 2 { env.populate_big_delete("dst") } else { env.populate("dst") }).is_none() { return 0; }
     env.run_killed(dir, "dst", 0).map(|o| if o.exit == Some(0) { o.calls } else { 0 }).unwrap_or(0)
 }
 pub fn search(as_twin: bool, thorough: bool) -> i32 {
@@ -295,6 +323,17 @@ pub fn search(as_twin: bool, thorough: bool) -> i32 {
             k += if thorough || k < 40 { 1 } else { 3 };
         }
         eprintln!("oneway {dir}: {n} kill points, {reported} violating");
+        if *dir == "push" {
+            // a delete list longer than a pipe buffer: killed between its write calls, the remote must not act on a truncated entry
+            let n = count_calls_v(dir, 2);
+            let mut reported = 0;
+            for k in 1..=n {
+                let (w, killed) = kill_point_v(dir, k, 2);
+                if killed { cases += 1; }
+                if let Some(what) = w { if reported < 2 { println!("WITNESS {{\"kind\":\"oneway\",\"dir\":{di},\"k\":{k},\"variant\":2,\"what\":\"{}\"}}", what.replace('"', "'").replace('\n', " ")); } reported += 1; }
+            }
+            eprintln!("oneway push --delete (1500 stale files): {n} kill points, {reported} violating");
+        }
         if thorough {
             // thorough: the same with --delete
             let n = count_calls_v(dir, 1);
